@@ -625,8 +625,59 @@ def t_kwcall(text, relpath):
     return ast.unparse(ast.fix_missing_locations(_KwCall(tree).visit(tree)))
 
 
+# ----------------------------------------------------------------- condtemp
+class _CondTemp(ast.NodeTransformer):
+    """`if <call | comparison | and/or | not ...>:`  ->
+    `_condN = <the test>; if _condN:` (an `elif` becomes `else:` + the two
+    statements).  Inside functions only."""
+
+    def __init__(self):
+        self.n = 0
+
+    def _rewrite(self, body):
+        out = []
+        for s in body:
+            if isinstance(s, ast.If) and isinstance(
+                    s.test, (ast.Call, ast.Compare, ast.BoolOp,
+                             ast.UnaryOp)):
+                self.n += 1
+                name = '_cond%d' % self.n
+                out.append(ast.Assign(
+                    targets=[ast.Name(id=name, ctx=ast.Store())],
+                    value=s.test))
+                s.test = ast.Name(id=name, ctx=ast.Load())
+            out.append(s)
+        return out
+
+    def generic_visit(self, node):
+        super().generic_visit(node)
+        for field in ('body', 'orelse', 'finalbody'):
+            b = getattr(node, field, None)
+            if isinstance(b, list) and b and isinstance(b[0], ast.stmt):
+                setattr(node, field, self._rewrite(b))
+        return node
+
+    def visit_ClassDef(self, node):
+        for i, s in enumerate(node.body):
+            if isinstance(s, (ast.FunctionDef, ast.AsyncFunctionDef)):
+                node.body[i] = self.visit(s)
+        return node
+
+    def visit_Module(self, node):
+        for i, s in enumerate(node.body):
+            if isinstance(s, (ast.FunctionDef, ast.AsyncFunctionDef,
+                              ast.ClassDef)):
+                node.body[i] = self.visit(s)
+        return node
+
+
+def t_condtemp(text, relpath):
+    return ast.unparse(ast.fix_missing_locations(
+        _CondTemp().visit(ast.parse(text))))
+
+
 TRANSFORMS = {
-    'kwcall': t_kwcall,
+    'kwcall': t_kwcall, 'condtemp': t_condtemp,
     'withsplit': t_withsplit, 'argtemp': t_argtemp, 'ternary': t_ternary,
     'reformat': t_reformat, 'rename': t_rename, 'flipcmp': t_flipcmp,
     'invertif': t_invertif, 'demorgan': t_demorgan, 'augassign': t_augassign,
